@@ -43,6 +43,7 @@ fn recv_data_step(k: usize, l: usize, mode: TransmissionMode) {
     assert!(t.verif_progress() >= held, "progress never decreases");
     let fs = verif::ind_last_kind(verif::K_FILE_SEGMENT);
     assert!(fs == Some((off, l as u64)), "file-segment indication names the received range");
+    kani::cover!(true, "end");
     kani::cover!(k == 1 && new == 0, "duplicate");
     kani::cover!(k == 1 && new > 0 && new < l as u64, "partial overlap");
     forget(t);
@@ -81,7 +82,7 @@ th!(c20_t_recv_data_progress_k2_more, 8, {
     recv_k2_step(7);
     kani::cover!(true, "end");
 });
-//# funcs=RecvTransaction::process_pdu(FileData),store_file_data,Segments::merge; bound=nothing held, 1 new byte at any offset < 2^40; stubs=S1,S2,S3,S5
+//# funcs=RecvTransaction::process_pdu(FileData),store_file_data,Segments::merge; bound=nothing held, 1 new byte at any offset < 2^40; stubs=S1,S2,S3,S5; nocover=duplicate|partial overlap
 th!(c20_q_recv_data_progress_k0, 8, { recv_data_step(0, 1, TransmissionMode::Acknowledged) });
 //# funcs=RecvTransaction::process_pdu(FileData) unacknowledged mode; bound=held (4,8), 2 new bytes anywhere; stubs=S1,S2,S3,S5
 th!(c20_t_recv_data_progress_unack, 8, { recv_data_step(1, 2, TransmissionMode::Unacknowledged) });
@@ -175,11 +176,11 @@ fn send_progress_step(l: usize, s: u16, c: usize) {
     forget(ch);
 }
 // cursor, file length and segment size are concrete per instance (they decide buffer lengths), the content is symbolic
-//# funcs=SendTransaction::send_pdu(SendData),send_file_segment,get_file_segment; bound=5-byte file, segment size 2, cursor 0 (first segment); stubs=S1,S2,S3,S5
+//# funcs=SendTransaction::send_pdu(SendData),send_file_segment,get_file_segment; bound=5-byte file, segment size 2, cursor 0 (first segment); stubs=S1,S2,S3,S5; nocover=short last segment
 th!(c20_q_send_progress_first, 12, { send_progress_step(5, 2, 0) });
-//# funcs=SendTransaction::send_pdu(SendData),get_file_segment,prepare_eof; bound=5-byte file, segment size 2, cursor 4 (short last segment); stubs=S1,S2,S3,S5
+//# funcs=SendTransaction::send_pdu(SendData),get_file_segment,prepare_eof; bound=5-byte file, segment size 2, cursor 4 (short last segment); stubs=S1,S2,S3,S5; nocover=full segment
 th!(c20_q_send_progress_last, 12, { send_progress_step(5, 2, 4) });
-//# funcs=SendTransaction::send_pdu(SendData),get_file_segment; bound=empty file, segment size 4; stubs=S1,S2,S3,S5
+//# funcs=SendTransaction::send_pdu(SendData),get_file_segment; bound=empty file, segment size 4; stubs=S1,S2,S3,S5; nocover=full segment
 th!(c20_q_send_progress_empty, 12, { send_progress_step(0, 4, 0) });
 //# funcs=SendTransaction::send_pdu(SendData),get_file_segment; bound=5-byte file, segment size 2, cursor 2 (middle segment); stubs=S1,S2,S3,S5
 th!(c20_t_send_progress_middle, 12, { send_progress_step(5, 2, 2) });
